@@ -1,7 +1,7 @@
 (* C06 — Integrity of signed material: no single-bit change survives. *)
 From Coq Require Import ZArith List Bool.
 From PW Require Import Model.Base Model.SigTypes Model.Oracles Model.CredJson Model.VerifyAuth Model.Formats
-  Spec.FormatSpec Proofs.TamperProofs Proofs.FormatProofs.
+  Spec.FormatSpec Proofs.TamperProofs Proofs.FormatProofs Proofs.Examples Proofs.DegenerateKey.
 Import ListNotations.
 Open Scope Z_scope.
 
@@ -21,6 +21,21 @@ Theorem C06_tamper_auth_data : forall O,
   forall r', verify_auth_rec O P c' = Ok r' -> False.
 Proof. exact tamper_auth_data. Qed.
 Print Assumptions C06_tamper_auth_data.
+
+(* the premise is needed (finding F12, DESIGN.md section 4): with a verification oracle that ignores the message for one key and one signature - what an Ed25519 public
+   key of small order does to RFC 8032 verification - an accepted assertion stays accepted with a bit of its authenticator data changed.  The unconditional statement of
+   C06 is false of the faithful model; the witness replayed on the implementation is the KNOWN-FINDING the C06 check reproduces on every run. *)
+Theorem C06_unconditional_refuted : exists O P c c' r r',
+  verify_auth_rec O P c = Ok r /\ verify_auth_rec O P c' = Ok r' /\
+  acr_signature c' = acr_signature c /\ acr_client_data c' = acr_client_data c /\ acr_auth_data c' <> acr_auth_data c /\
+  length (acr_auth_data c') = length (acr_auth_data c).
+Proof. exact tamper_unconditional_refuted. Qed.
+Print Assumptions C06_unconditional_refuted.
+
+Theorem C06_degenerate_key_breaks_the_premise :
+  ~ (forall k sch s m m', o_verify dk_oracles k sch s m = true -> o_verify dk_oracles k sch s m' = true -> m = m').
+Proof. exact dk_oracle_breaks_the_premise. Qed.
+Print Assumptions C06_degenerate_key_breaks_the_premise.
 
 Theorem C06_tamper_client_data : forall O,
   (forall k sch s m m', o_verify O k sch s m = true -> o_verify O k sch s m' = true -> m = m') ->
